@@ -154,6 +154,19 @@ Definition started (t : gtab) (o : opts) (cs : list str) : bool :=
   negb (eff_check_start o) || match cs with [] => true | c :: _ => can_start t c end.
 Definition gapfree (o : opts) (l : str) : bool := forallb (fun x => negb (is_gap o x)) l.
 
+(* the same options with final_stop set explicitly *)
+Definition with_final_stop (b : bool) (o : opts) : opts :=
+  {| o_complete := o_complete o; o_check_start := o_check_start o; o_check_stop := o_check_stop o; o_final_stop := Some b;
+     o_astop := o_astop o; o_gap := o_gap o; o_gap_after := o_gap_after o |}.
+(* the symbol of the stop codon at which the translation ended (empty if it ran to the end of the sequence) *)
+Fixpoint end_stop (t : gtab) (o : opts) (cs : list str) : list byte :=
+  match cs with
+  | [] => []
+  | c :: rest =>
+      let last := match rest with [] => true | _ => false end in
+      if is_stop t c && (last || negb (o_complete o)) then [aa_of t (o_astop o) c] else end_stop t o rest
+  end.
+
 Definition degap_out (o : opts) (a : str) : str := filter (fun x => negb (is_gap o x)) a.
 Definition res_degap (o : opts) (r : res) : res := match r with Ok a => Ok (degap_out o a) | Err e => Err e end.
 
@@ -204,6 +217,74 @@ Definition gap_sym_ok (t : gtab) (o : opts) : bool :=
   | Some g => negb (byte_eqb (o_astop o) g) && negb (byte_eqb cX g) && forallb (fun kv => negb (byte_eqb (snd kv) g)) (g_tt t)
   end.
 
+(* ---- exact placement of the gap symbols (spec side) *)
+(* the g-th gap character of the input (g = 1, 2, ...) writes a gap symbol iff g = gap_after + 3j *)
+Definition emits (o : opts) (g : Z) : bool :=
+  match o_gap o, o_gap_after o with
+  | Some _, Some k => Z.leb k g && Z.eqb ((g - k) mod 3) 0
+  | _, _ => false
+  end.
+(* number of gap symbols written for the first g gap characters: 0 below gap_after, then one per three *)
+Definition ecount (o : opts) (g : Z) : Z :=
+  match o_gap o, o_gap_after o with
+  | Some _, Some k => if Z.ltb g k then 0%Z else ((g - k) / 3 + 1)%Z
+  | _, _ => 0%Z
+  end.
+Definition bump (ms : list nat) : list nat := match ms with [] => [1] | m :: r => S m :: r end.
+(* marks o g r l: for the rest l of the input, after g gap characters and with r residues in the current codon: per codon
+   (current one first; last entry = after the last complete codon) the number of gap symbols written before its symbol *)
+Fixpoint marks (o : opts) (g : Z) (r : nat) (l : str) : list nat :=
+  match l with
+  | [] => [0]
+  | x :: l' =>
+      if is_gap o x then (if emits o (g + 1) then bump (marks o (g + 1)%Z r l') else marks o (g + 1)%Z r l')
+      else if Nat.eqb r 2 then 0 :: marks o g 0 l' else marks o g (S r) l'
+  end.
+Definition gaps (o : opts) (m : nat) : str := match o_gap o with Some g => repeat g m | None => [] end.
+Fixpoint spec_go_g (t : gtab) (o : opts) (cs : list str) (ms : list nat) : res :=
+  match cs with
+  | [] => if o_check_stop o then Err ENoStop else Ok (gaps o (hd 0 ms))
+  | c :: rest =>
+      let last := match rest with [] => true | _ => false end in
+      if is_stop t c && o_check_stop o && negb last then Err EStopNotLast
+      else if is_stop t c && (last || negb (o_complete o)) then
+        Ok (gaps o (hd 0 ms) ++ (if eff_final_stop o then [aa_of t (o_astop o) c] else []))
+      else match spec_go_g t o rest (tl ms) with
+           | Ok r => Ok (gaps o (hd 0 ms) ++ aa_of t (o_astop o) c :: r)
+           | Err e => Err e
+           end
+  end.
+Definition spec_translate_g (t : gtab) (o : opts) (l : str) : res :=
+  let cs := codons (degap_in o l) in
+  if started t o cs then spec_go_g t o cs (marks o 0 0 l) else Err ENoStart.
+Definition count_gap (o : opts) (l : str) : Z := Z.of_nat (length (filter (is_gap o) l)).
+Definition sum_nat (l : list nat) : nat := fold_right Nat.add 0 l.
+
+(* ---------------------------------------------------------------- wrappers (seq.py: BioSeq.__init__, BioSeq.translate, BioBasket.translate) *)
+Inductive stype := NT | AA.
+Record bioseq := { b_data : str; b_type : stype }.
+(* str.upper() on ASCII (BioSeq.__init__: self.data = str(data).upper()) *)
+Definition upper1 (b : byte) : byte :=
+  let n := Byte.to_N b in
+  if (N.leb 97 n && N.leb n 122)%bool then match Byte.of_N (n - 32) with Some u => u | None => b end else b.
+Definition bioseq_new (s : str) : bioseq := {| b_data := map upper1 s; b_type := NT |}.     (* BioSeq(s, type='nt') *)
+(* BioSeq.translate: self.data = translate(self.data, ...); self.type = 'aa'; return self  (nothing is assigned when translate raises) *)
+Definition bioseq_translate (t : gtab) (o : opts) (q : bioseq) : bioseq + err :=
+  match translate t o (b_data q) with
+  | Ok a => inl {| b_data := a; b_type := AA |}
+  | Err e => inr e
+  end.
+(* BioBasket.translate: for seq in self: seq.translate(...) -- in place, so the sequences before a failing one stay translated *)
+Fixpoint basket_translate (t : gtab) (o : opts) (b : list bioseq) : list bioseq * option err :=
+  match b with
+  | [] => ([], None)
+  | q :: r =>
+      match bioseq_translate t o q with
+      | inl q' => let (r', e) := basket_translate t o r in (q' :: r', e)
+      | inr e => (q :: r, Some e)
+      end
+  end.
+
 (* ---------------------------------------------------------------- domain of the property *)
 Definition gap_after_ok (o : opts) : bool :=
   match o_gap_after o with None => true | Some k => Z.leb 1 k end.
@@ -215,17 +296,24 @@ Definition wf_C07 (t : gtab) (o : opts) (l : str) : bool :=
 (* ---------------------------------------------------------------- harness entry point *)
 Fixpoint lookup_tab (k : N) (l : list (N * gtab)) : option gtab :=
   match l with [] => None | (i, t) :: r => if N.eqb i k then Some t else lookup_tab k r end.
-(* str.upper() on ASCII (BioSeq.__init__, seq.py:214) *)
-Definition upper1 (b : byte) : byte :=
-  let n := Byte.to_N b in
-  if (N.leb 97 n && N.leb n 122)%bool then match Byte.of_N (n - 32) with Some u => u | None => b end else b.
 Definition show_res (r : res) : val := match r with Ok a => VS a | Err _ => VE (bs "ValueError"%bs) end.
-(* op 0: cane.translate(str); op 1: BioSeq(str).translate(); op 2: BioBasket([...]).translate() *)
+Definition show_type (y : stype) : val := match y with NT => VS (bs "nt"%bs) | AA => VS (bs "aa"%bs) end.
+Definition show_seq (q : bioseq) : val := VL [VS (b_data q); show_type (b_type q)].
+(* op 0: cane.translate(str) -> str / ValueError
+   op 1: BioSeq(s, type='nt').translate() -> [data, type] / ValueError
+   op 2: BioBasket([BioSeq(s), BioSeq(s[3:])]).translate() -> [None | 'ValueError', [[data, type], [data, type]]] (state after the call) *)
 Definition run_C07 (op : N) (tt : N) (o : opts) (s : str) : val :=
-  let s := if N.eqb op 0 then s else map upper1 s in
   match lookup_tab tt tabs with
   | None => VL [VB false; VE (bs "KeyError"%bs)]
-  | Some t => VL [VB (wf_C07 t o s); show_res (translate t o s)]
+  | Some t =>
+      if N.eqb op 0 then VL [VB (wf_C07 t o s); show_res (translate t o s)]
+      else if N.eqb op 1 then
+        VL [VB (wf_C07 t o (map upper1 s));
+            match bioseq_translate t o (bioseq_new s) with inl q => show_seq q | inr _ => VE (bs "ValueError"%bs) end]
+      else
+        let (b, e) := basket_translate t o [bioseq_new s; bioseq_new (skipn 3 s)] in
+        VL [VB (wf_C07 t o (map upper1 s));
+            VL [match e with None => VNone | Some _ => VS (bs "ValueError"%bs) end; VL (map show_seq b)]]
   end.
 Definition mk_opts (complete : bool) (check_start : option bool) (check_stop : bool) (final_stop : option bool)
   (astop : byte) (gap : option byte) (gap_after : option Z) : opts :=
